@@ -185,6 +185,7 @@ type scenSample struct {
 	Ops      []string
 	Observed [][]Entry
 	Fresh    [][]Entry
+	Keys     [][]string
 }
 
 func TestGen(t *testing.T) {
@@ -192,12 +193,13 @@ func TestGen(t *testing.T) {
 		s.SetOutputLevel(istiolog.NoneLevel)
 	}
 	c := vlib.NewCollector("C11", "V.C11.Run")
-	c.Rule = "ident: claimed namespace/SA x credential identity lists (well-formed, foreign namespace/SA, malformed SPIFFE, nil list, empty list) through the real DiscoveryServer.authorize, " +
+	c.Rule = "ident: node id + metadata (namespace from ISTIO_META or the DNS domain, SA) through ParseServiceNodeWithMetadata/GetProxyConfigNamespace x credential identity lists (well-formed, foreign namespace/SA, malformed SPIFFE, nil list, empty list) through the real DiscoveryServer.authorize, " +
 		"identity check on and off; non-trivial = list non-nil and contains >=1 parsable identity. " +
 		"parse: generated resource names (4 schemes x optional namespace x names, extra components, -cacert, near-miss and odd names) through credentials.ParseResourceName; non-trivial = parses. " +
 		"filter: real parseResources + filterAuthorizedResources with a data-driven fake controller (Authorize outcome chosen per cluster/namespace/SA); non-trivial = >=1 resource denied and >=1 allowed. " +
 		"scen: histories of 2-7 ops (Generate by 2-4 differently privileged proxies over a common pool of names, ClearAll, Clear(keys)) on one SecretGen with the real XdsCache, " +
-		"each Generate repeated on a brand-new SecretGen; observable per response item: name, private key present, which stored object it came from; non-trivial = some response carries a private key and some proxy is denied a name another one received."
+		"each Generate repeated on a brand-new SecretGen (order-independence oracle); observable per response item: name, private key present, which stored object it came from; plus the key set of the real cache after every op; non-trivial = some response carries a private key and some proxy is denied a name another one received. " +
+		"kauth: the real kube CredentialsController.Authorize on a fake client whose SubjectAccessReview reactor answers from a grant table that changes between calls; non-trivial = a (namespace, SA) is asked again after an RBAC change (cache path)."
 	seed := vlib.Seed()
 	root := vlib.NewRand(seed*0x9e37 + 11)
 	id := 0
@@ -230,12 +232,18 @@ func TestGen(t *testing.T) {
 			continue
 		}
 		enable := !r.Chance(10)
-		cns, csa := vlib.Pick(r, nsPool), vlib.Pick(r, saPool)
-		if r.Chance(15) {
-			cns = ""
-		}
+		csa := vlib.Pick(r, saPool)
 		if r.Chance(25) {
 			csa = ""
+		}
+		// the claimed namespace: ISTIO_META namespace, else the leading label of the node id's DNS domain
+		mns := vlib.Pick(r, nsPool)
+		dns := vlib.Pick(r, nsPool) + ".svc.cluster.local"
+		if r.Chance(30) {
+			mns = ""
+			if r.Chance(40) {
+				dns = vlib.Pick(r, []string{"", "cluster", "a.", ".a", "a", "b.svc", "..", "istio-system"})
+			}
 		}
 		var ids []string
 		idsNil := r.Chance(8)
@@ -250,11 +258,15 @@ func TestGen(t *testing.T) {
 				ids = append(ids, s)
 			}
 		}
-		p := &model.Proxy{ID: "p", ConfigNamespace: cns, Metadata: &model.NodeMetadata{ServiceAccount: csa}}
+		p, perr := model.ParseServiceNodeWithMetadata("router~10.0.0.1~gw-1."+mns+"~"+dns, &model.NodeMetadata{Namespace: mns, ServiceAccount: csa})
+		if perr != nil {
+			t.Fatalf("node id rejected: %v", perr)
+		}
+		p.ConfigNamespace = model.GetProxyConfigNamespace(p) // as initProxyMetadata does
 		features.EnableXDSIdentityCheck = enable
 		var err error
 		if pan, msg := vlib.Recover(func() { err = xds.VerifC11Authorize(p, ids) }); pan {
-			c.Violate(vlib.Violation{ID: id, Kind: "panic", Detail: msg, Case: map[string]any{"cns": cns, "csa": csa, "ids": ids}})
+			c.Violate(vlib.Violation{ID: id, Kind: "panic", Detail: msg, Case: map[string]any{"mns": mns, "dns": dns, "csa": csa, "ids": ids}})
 			continue
 		}
 		obs := "AuthDenied"
@@ -275,8 +287,8 @@ func TestGen(t *testing.T) {
 		if !idsNil {
 			idsT = "(Some " + strList(ids) + ")"
 		}
-		c.Add(vlib.Case{ID: id, Term: vlib.App("Ident", vlib.NI(id), vlib.B(enable), S(cns), S(csa), idsT, obs), Tags: tags,
-			Sample: map[string]any{"kind": "ident", "enable": enable, "cns": cns, "csa": csa, "ids": ids, "nil": idsNil, "observed": obs},
+		c.Add(vlib.Case{ID: id, Term: vlib.App("Ident", vlib.NI(id), vlib.B(enable), S(mns), S(dns), S(csa), idsT, obs), Tags: tags,
+			Sample: map[string]any{"kind": "ident", "enable": enable, "meta_ns": mns, "dns_domain": dns, "config_ns": p.ConfigNamespace, "csa": csa, "ids": ids, "nil": idsNil, "observed": obs},
 			Trivial: idsNil || parsable == 0})
 	}
 	features.EnableXDSIdentityCheck = saved
@@ -377,16 +389,16 @@ func TestGen(t *testing.T) {
 		}
 		w := genWorld(r)
 		pool := []string{}
-		for k := 2 + r.Intn(5); k > 0; k-- {
+		for k := 1 + r.Intn(3); k > 0; k-- {
 			pool = append(pool, genName(r))
 		}
 		// names that point at stored objects, so that private keys actually flow
-		for k := r.Intn(3); k > 0 && len(w.Secrets) > 0; k-- {
+		for k := 1 + r.Intn(4); k > 0 && len(w.Secrets) > 0; k-- {
 			s := vlib.Pick(r, w.Secrets)
-			switch r.Intn(3) {
-			case 0:
+			switch r.Intn(5) {
+			case 0, 1:
 				pool = append(pool, "kubernetes://"+s.Name)
-			case 1:
+			case 2, 3:
 				pool = append(pool, "kubernetes://"+s.Ns+"/"+s.Name)
 			default:
 				pool = append(pool, "kubernetes-gateway://"+s.Ns+"/"+s.Name)
@@ -394,23 +406,49 @@ func TestGen(t *testing.T) {
 		}
 		pool = dedupSorted(pool)
 		proxies := []*Proxy{}
-		for k := 2 + r.Intn(3); k > 0; k-- {
-			proxies = append(proxies, genProxy(r, w, hashes, pool))
-		}
-		// make privileges differ on purpose: a twin of the first proxy in the same namespace with the other SA
-		if proxies[0].Verified != nil && r.Chance(60) {
-			tw := *proxies[0]
-			v := *tw.Verified
-			if v.Sa == saPool[0] {
-				v.Sa = saPool[1]
-			} else {
-				v.Sa = saPool[0]
+		// an anchor proxy living where a stored secret lives, usually authorised; then proxies that differ
+		// from it in exactly one privilege-relevant respect (service account, namespace, references,
+		// authentication, cluster), then random ones
+		if len(w.Secrets) > 0 {
+			s := vlib.Pick(r, w.Secrets)
+			a := &Proxy{Verified: &Ident{"cluster.local", s.Ns, vlib.Pick(r, saPool)}, Cluster: s.Cluster, PkpHash: hashes[0]}
+			if r.Chance(85) {
+				w.Authz = append(w.Authz, Authz{s.Cluster, s.Ns, a.Verified.Sa})
 			}
+			if r.Chance(40) {
+				refs := []string{}
+				for _, n := range pool {
+					if strings.HasPrefix(n, "kubernetes-gateway://") && r.Chance(70) {
+						refs = append(refs, n)
+					}
+				}
+				a.Refs = &refs
+			}
+			proxies = append(proxies, a)
+			tw := *a
+			v := *a.Verified
 			tw.Verified = &v
-			if r.Chance(50) {
+			switch r.Intn(6) {
+			case 0, 1:
+				if v.Sa == saPool[0] {
+					v.Sa = saPool[1]
+				} else {
+					v.Sa = saPool[0]
+				}
+			case 2, 3:
+				for v.Ns == a.Verified.Ns {
+					v.Ns = vlib.Pick(r, nsPool)
+				}
+			case 4:
+				tw.Verified = nil
+			default:
 				tw.Refs = nil
+				tw.Cluster = vlib.Pick(r, w.Clusters)
 			}
 			proxies = append(proxies, &tw)
+		}
+		for k := 1 + r.Intn(2); k > 0; k-- {
+			proxies = append(proxies, genProxy(r, w, hashes, pool))
 		}
 		ops := []Op{}
 		for k := 2 + r.Intn(6); k > 0; k-- {
@@ -426,7 +464,7 @@ func TestGen(t *testing.T) {
 			default:
 				o := Op{Kind: 0, P: vlib.Pick(r, proxies), R: genReq(r)}
 				for _, n := range pool {
-					if r.Chance(70) {
+					if r.Chance(80) {
 						o.Names = append(o.Names, n)
 					}
 				}
@@ -438,6 +476,7 @@ func TestGen(t *testing.T) {
 		}
 		gen, cache, _ := newSecretGen(w)
 		var observed, fresh [][]Entry
+		var keysets [][]string
 		var failure string
 		if pan, msg := vlib.Recover(func() {
 			for _, o := range ops {
@@ -465,6 +504,12 @@ func TestGen(t *testing.T) {
 					}
 					cache.Clear(ks)
 				}
+				ks := []string{}
+				for _, k := range cache.Keys(model.SDSType) {
+					ks = append(ks, k.(string))
+				}
+				sort.Strings(ks)
+				keysets = append(keysets, ks)
 			}
 		}); pan {
 			c.Violate(vlib.Violation{ID: id, Kind: "panic", Detail: msg, Case: map[string]any{"world": w, "ops": ops}})
@@ -478,7 +523,7 @@ func TestGen(t *testing.T) {
 		for j, o := range ops {
 			opTerms[j] = o.term()
 		}
-		term := vlib.App("Scen", vlib.NI(id), w.term(), vlib.List(opTerms), vlib.ListOf(observed, entriesTerm), vlib.ListOf(fresh, entriesTerm))
+		term := vlib.App("Scen", vlib.NI(id), w.term(), vlib.List(opTerms), vlib.ListOf(observed, entriesTerm), vlib.ListOf(fresh, entriesTerm), vlib.ListOf(keysets, strList))
 		tags := []string{"scen", fmt.Sprintf("scen-ops=%d", len(ops))}
 		anyKey, denied := false, false
 		got := map[string]bool{}
@@ -519,8 +564,82 @@ func TestGen(t *testing.T) {
 			tags = append(tags, "scen=denied-after-other-received")
 		}
 		c.Add(vlib.Case{ID: id, Term: term, Tags: tags,
-			Sample:  scenSample{World: w, Ops: opTerms, Observed: observed, Fresh: fresh},
+			Sample:  scenSample{World: w, Ops: opTerms, Observed: observed, Fresh: fresh, Keys: keysets},
 			Trivial: !(anyKey && denied)})
+	}
+
+	// ---- the real kube CredentialsController.Authorize against a fake SubjectAccessReview backend
+	rK := root.Sub()
+	kSa := []string{"gw", "default", "b:gw", ""}
+	genGrants := func(r *vlib.Rand) []Grant {
+		gs := []Grant{}
+		for _, ns := range nsPool {
+			for _, sa := range kSa {
+				if r.Chance(35) {
+					gs = append(gs, Grant{ns, sa})
+				}
+			}
+		}
+		return gs
+	}
+	grantsTerm := func(gs []Grant) string {
+		return vlib.ListOf(gs, func(g Grant) string { return vlib.Pair(S(g.Ns), S(g.Sa)) })
+	}
+	for i := 0; i < vlib.Scale(120, 2000); i++ {
+		id++
+		r := rK.Sub()
+		if !c.Wanted(id) {
+			continue
+		}
+		b := &sarBackend{grants: genGrants(r)}
+		initial := b.grants
+		ctl, _ := newKubeController(b)
+		opTerms := []string{}
+		obs := []bool{}
+		calls, flips := 0, 0
+		seen := map[string]bool{}
+		repeatAfterChange := false
+		changed := false
+		if pan, msg := vlib.Recover(func() {
+			for k := 4 + r.Intn(9); k > 0; k-- {
+				if r.Chance(20) {
+					b.grants = genGrants(r)
+					opTerms = append(opTerms, vlib.App("KSet", grantsTerm(b.grants)))
+					flips++
+					changed = true
+					continue
+				}
+				sa, ns := vlib.Pick(r, kSa), vlib.Pick(r, nsPool)
+				if changed && seen[ns+"|"+sa] {
+					repeatAfterChange = true
+				}
+				seen[ns+"|"+sa] = true
+				err := ctl.Authorize(sa, ns)
+				calls++
+				obs = append(obs, err == nil)
+				opTerms = append(opTerms, vlib.App("KCall", S(sa), S(ns)))
+			}
+		}); pan {
+			c.Violate(vlib.Violation{ID: id, Kind: "panic", Detail: msg})
+			continue
+		}
+		if len(b.odd) > 0 {
+			c.Violate(vlib.Violation{ID: id, Kind: "oracle", Detail: "SubjectAccessReview with unexpected attributes: " + b.odd[0]})
+		}
+		tags := []string{"kauth"}
+		for _, o := range obs {
+			if o {
+				tags = append(tags, "kauth=allowed")
+			} else {
+				tags = append(tags, "kauth=denied")
+			}
+		}
+		if repeatAfterChange {
+			tags = append(tags, "kauth=repeat-after-rbac-change")
+		}
+		c.Add(vlib.Case{ID: id, Term: vlib.App("KAuth", vlib.NI(id), grantsTerm(initial), vlib.List(opTerms), vlib.ListOf(obs, vlib.B)), Tags: tags,
+			Sample:  map[string]any{"kind": "kauth", "grants": initial, "ops": opTerms, "observed": obs, "reviews": b.reviews},
+			Trivial: !repeatAfterChange})
 	}
 
 	if err := c.Flush(); err != nil {
